@@ -9,6 +9,7 @@ package main
 import (
 	"bufio"
 	"encoding/json"
+	"errors"
 	"flag"
 	"fmt"
 	"io"
@@ -103,6 +104,7 @@ type Violation struct {
 type Results struct {
 	Runs       int           `json:"runs"`
 	Steps      int           `json:"steps"`
+	Oversize   int           `json:"oversize_replies"`
 	Violations []Violation   `json:"violations"`
 	Notes      []string      `json:"notes"`
 	Samples    []interface{} `json:"samples"`
@@ -432,7 +434,27 @@ func e2e(path string, kinds, protos []string, stride, offset int) {
 		before := len(co.env.Handler.Snapshot())
 		method := i % 3
 		var cerr error
+		// Context!ServerWrite holds for EVERY response, also for the exception that replaces a result too large for the
+		// server's reply buffer (NATS: 1 MB): it carries the op id, the correlation id and the headers the handler set
+		oversize := co.env.Kind == "nats" && len(c.HandlerSets) > 0 && (i/len(combos))%4 == 0
+		if oversize {
+			method = 3
+			co.env.Handler.Script = func(string, int, []interface{}) rig.Outcome {
+				return rig.Outcome{Kind: "return", RespHdr: sets, BigReply: 1100000}
+			}
+		}
 		switch method {
+		case 3:
+			_, cerr = co.cl.Echo(ctx, []byte("x"))
+			var te thrift.TTransportException
+			if cerr == nil || !errors.As(cerr, &te) || te.TypeId() != frugal.TRANSPORT_EXCEPTION_RESPONSE_TOO_LARGE {
+				violate("e2e/oversize-reply-outcome/"+label, fmt.Sprintf("%s: a 1.1 MB result over NATS: the caller got %v, must be RESPONSE_TOO_LARGE", label, cerr), map[string]interface{}{"transport": co.env.Kind, "protocol": co.env.Proto, "case": c})
+			}
+			cerr = nil
+			if got, _ := ctx.ResponseHeader("_cid"); got != callerCid {
+				violate("e2e/oversize-reply-cid/"+label, fmt.Sprintf("%s: the RESPONSE_TOO_LARGE reply carried correlation id %q, the request had %q", label, got, callerCid), map[string]interface{}{"transport": co.env.Kind, "protocol": co.env.Proto, "case": c})
+			}
+			res.Oversize++
 		case 0:
 			_, cerr = co.cl.Ping(ctx, "x") // inherited method
 		case 1:
